@@ -164,12 +164,18 @@ def finish(ctx, manifest_entry, sections, replay_fn, t0):
     open_f = ctx.open_findings()
     reproduced = {}
     unlisted = []
+    matched = []
     for v in violations:
         f = match_finding(v, open_f)
         if f is not None:
             reproduced.setdefault(f["id"], (f, v))
+            matched.append((f["id"], v.key, v.what[:300]))
         else:
             unlisted.append(v)
+    if os.environ.get("VF_DUMP_KNOWN"):
+        # review aid: every violation of this run that a listed finding accounts for (finding id, key, description)
+        with open(os.environ["VF_DUMP_KNOWN"], "w") as fh:
+            json.dump(sorted(matched), fh, indent=1)
 
     # open findings not hit by this run's exploration: replay their recorded witness
     stale = []
